@@ -73,6 +73,146 @@ func directedCases() []PCase {
 			Args: []OSpec{dObj(t, "dmat", 2, 2, ot2), dObj(t, "dmat", 2, 2, ot2)}, Alias: []int{-1, 1}})
 	}
 	out = append(out, scalarRefCases()...)
+	out = append(out, viewCases()...)
+	out = append(out, scalarInplaceCases()...)
+	return out
+}
+
+// scalarInplaceCases: every pair of the magic scalars (Real64, Real32) whose operands are scalars, called IN PLACE
+// (receiver = first operand, = second operand, = both) at Order 2 with N = 2 and N = 3, non-symmetric raw Hessian storage
+// and derivatives that are neither 0 nor 1: the chain-rule kernels of the concrete members (realMonadic,
+// realMonadicLazy, realDyadic, realDyadicLazy) are textual copies of the generic ones; a copy that computes the gradient
+// before the Hessian, walks the Hessian in another order or reads a mirrored cell agrees with the generic kernel
+// unless the receiver is an operand.  Operand values inside the domain of every function (0 < x < 1 for the
+// inverse trigonometric / logarithmic ones is not needed: a NaN is compared as a NaN).
+func scalarInplaceCases() []PCase {
+	var out []PCase
+	plans, _ := allPlans()
+	mk := func(n int, v float64, k float64) OSpec {
+		e := ESpec{P: true, V: JF(v), O: 2, N: n}
+		for i := 0; i < n; i++ {
+			e.D = append(e.D, JF(k*float64(i+1)+0.5))
+			var row []JF
+			for j := 0; j < n; j++ {
+				row = append(row, JF(k*float64(3*i+j)-1.25))
+			}
+			e.H = append(e.H, row)
+		}
+		return OSpec{K: "scalar", E: []ESpec{e}}
+	}
+	for _, pl := range plans {
+		if pl.Kind != "scalar" || !isReal(pl.Type) {
+			continue
+		}
+		var slots []int
+		ok := true
+		for i, k := range pl.Args {
+			switch k {
+			case "scalar":
+				slots = append(slots, i)
+			case "f64", "int":
+			default:
+				ok = false
+			}
+		}
+		if !ok || len(slots) == 0 {
+			continue
+		}
+		for _, n := range []int{2, 3} {
+			for _, v := range []float64{0.75, 2.5} {
+				// alias patterns over the scalar slots: each slot the receiver or a scalar of its own, at least one the receiver
+				for mask := 1; mask < 1<<uint(len(slots)); mask++ {
+					c := PCase{Type: pl.Type, Kind: "scalar", G: pl.P.G, C: pl.P.C, Recv: mk(n, v, 0.75)}
+					for i, k := range pl.Args {
+						switch k {
+						case "f64":
+							c.Args = append(c.Args, OSpec{K: "f64", F: JF(0.5)})
+						case "int":
+							c.Args = append(c.Args, OSpec{K: "int", I: 2})
+						default:
+							c.Args = append(c.Args, mk(n, v/2+0.125, -0.5))
+						}
+						_ = i
+						c.Alias = append(c.Alias, -1)
+					}
+					for b, i := range slots {
+						if mask&(1<<uint(b)) != 0 {
+							c.Alias[i] = 0
+							c.Args[i] = cloneObj(c.Recv)
+						}
+					}
+					out = append(out, c)
+				}
+			}
+		}
+	}
+	return out
+}
+
+// viewCases: every dense matrix pair on SLICE views of EQUALLY SHAPED parents at different row / column offsets
+// (receiver, first and second operand each at its own offset), none / all / some of them transposed, with the
+// receiver also being the first / second operand (the same view object).  All elements of the three parents are
+// different (the value tells parent and cell), non-zero and small (integer quotients and int8 products stay in
+// range), so a member that ignores an offset, a transposition flag or the parent's row length reads or writes
+// a visibly different cell; the parents are compared after the call as well.
+func viewCases() []PCase {
+	var out []PCase
+	type pr struct{ g, c string }
+	mm := []pr{{"MaddM", "MADDM"}, {"MsubM", "MSUBM"}, {"MmulM", "MMULM"}, {"MdivM", "MDIVM"}}
+	ms := []pr{{"MaddS", "MADDS"}, {"MsubS", "MSUBS"}, {"MmulS", "MMULS"}, {"MdivS", "MDIVS"}}
+	const PR, PC = 4, 5
+	parent := func(t string, base float64, vr, vc, ro, co int, tr bool) OSpec {
+		vs := make([]float64, PR*PC)
+		for k := range vs {
+			if t == "int8" {
+				vs[k] = float64(1 + (k+int(base))%9) // products stay below 127
+			} else {
+				vs[k] = base + float64(k) // the value tells parent and cell
+			}
+		}
+		o := dObj(t, "dmat", vr, vc, vs)
+		o.View = &VSpec{PR: PR, PC: PC, RO: ro, CO: co, T: tr}
+		return o
+	}
+	for _, t := range typeNames {
+		for _, tp := range [][3]bool{{false, false, false}, {true, true, true}, {false, true, false}, {true, false, true}, {false, false, true}} {
+			// object shape 2 x 3 (a transposed view slices 3 x 2 out of its parent)
+			offs := [][2]int{{0, 0}, {1, 1}, {2, 2}}
+			mk := func(k int, base float64) OSpec {
+				ro, co := offs[k][0], offs[k][1]
+				if tp[k] && ro+3 > PR {
+					ro = PR - 3
+				}
+				return parent(t, base, 2, 3, ro, co, tp[k])
+			}
+			for _, p := range mm {
+				for _, al := range [][]int{{-1, -1}, {0, -1}, {-1, 0}, {-1, 1}} {
+					if (al[0] == 0 && tp[0] != tp[1]) || (al[1] == 0 && tp[0] != tp[2]) || (al[1] == 1 && tp[1] != tp[2]) {
+						continue
+					}
+					out = append(out, PCase{Type: t, Kind: "dmat", G: p.g, C: p.c, Recv: mk(0, 1),
+						Args: []OSpec{mk(1, 31), mk(2, 61)}, Alias: al})
+				}
+			}
+			for _, p := range ms {
+				for _, al := range []int{-1, 0} {
+					if al == 0 && tp[0] != tp[1] {
+						continue
+					}
+					out = append(out, PCase{Type: t, Kind: "dmat", G: p.g, C: p.c, Recv: mk(0, 1),
+						Args: []OSpec{mk(1, 31), {K: "scalar", E: []ESpec{dElem(t, 2)}}}, Alias: []int{al, -1}})
+				}
+			}
+			// Equals: equal views of different parents at different offsets would need equal cells: compare a view with itself
+			// and with a view of another parent (false)
+			out = append(out, PCase{Type: t, Kind: "dmat", G: "Equals", C: "EQUALS", Recv: mk(0, 1),
+				Args: []OSpec{mk(1, 31), {K: "f64", F: 1e-8}}, Alias: []int{-1, -1}})
+			// MdotM on views: r (2x3 view) = a (2x2 view) . b (2x3 view)
+			a22 := parent(t, 1, 2, 2, 1, 2, tp[1])
+			out = append(out, PCase{Type: t, Kind: "dmat", G: "MdotM", C: "MDOTM", Recv: mk(0, 1),
+				Args: []OSpec{a22, mk(2, 3)}, Alias: []int{-1, -1}})
+		}
+	}
 	return out
 }
 
